@@ -21,7 +21,8 @@ THEOREMS = [
     "Docstring.fallback_full_text", "Docstring.fallback_uses_source_text", "Docstring.isolation_source",
     "Docstring.parse_fallback_full_text", "Docstring.ensure_fallback_full_text",
     "Docstring.render_fallback_full_text", "Docstring.unreported_parse_error_counterexample",
-    "Docstring.render_failure_reported", "Docstring.render_failure_masked_counterexample",
+    "Docstring.render_failure_reported", "Docstring.render_failure_after_warning_reported",
+    "Docstring.render_failure_masked_old_counterexample", "Docstring.reported_once_phase",
     "Docstring.recovered_errors_reported",
     "Docstring.reported_once", "Docstring.second_call_silent", "Docstring.doc_second_call", "Docstring.isolation",
     "Docstring.summary_fallback_touches_source", "Docstring.extract_spec",
@@ -44,8 +45,9 @@ PARTIAL = {
         "slugify, checked per case by the harness; slugify_loops_without_distinct_candidates shows it is needed)",
     "Docstring.parse_fallback_full_text": "the 'exactly one report group' half needs: the parser stored at least one error "
         "before raising ParseError (epytext does: epytext_raises_iff_fatal) and the object was not reported before",
-    "Docstring.render_failure_reported": "needs: the object was not reported before in this section "
-        "(render_failure_masked_counterexample: an earlier docutils warning hides the renderer failure from the log)",
+    "Docstring.render_failure_reported": "needs: no RENDERING failure of the object was reported before in this section (one group per "
+        "(section, object, phase) since 4690c0c; an earlier parse warning no longer hides it: render_failure_after_warning_reported; "
+        "render_failure_masked_old_counterexample is historical)",
 }
 RULE = ("fault stream: the real epydoc2stan/markup functions run over stub parsers / stub ParsedDocstrings realising every "
         "outcome of every parameter (parser x processtypes step x to_stan x to_node x summary walk x toc builder x field "
@@ -196,7 +198,7 @@ class World:
         s.options.processtypes = bool(pt)
         s.options.sidebartocdepth = td
         s.parse_errors.clear()
-        if hasattr(s, "reported_errors"):      # the dedup set of the proposed fix for report:render-failure-masked-…
+        if hasattr(s, "reported_errors"):      # absent before 4690c0c (the check must still run there and fail properly)
             s.reported_errors.clear()
         s.once_msgs.clear()
         s.violations = 0
@@ -728,11 +730,13 @@ def canon_state(w: World, descr_token, pdname=None, only_report_errors: bool = T
             rt.append("%d.%d.%s.%d" % (i, SEC_NAMES[section], descr_token(descr[len(pre):]), off))
         elif not only_report_errors:
             rt.append("%d.%s.other" % (i, section))
+    keys = sorted((SEC_NAMES.get(sec, 99), w.ids.get(n, 99), 0 if ph == "parsing" else 1) for (sec, n, ph) in getattr(s, "reported_errors", ()))
+    ptok = ",".join("%d.%d.%s" % (a, b, "pr"[c]) for a, b, c in keys) or "-"
     m = "1" if any(sec == "epydoc2stan" for sec, _ in s.once_msgs) else "0"
     ot = " ".join("%d=%s/%s/%s" % (i, canon_pd(w, o.parsed_docstring, pdname), canon_pd(w, o.parsed_summary, pdname),
                                    canon_ptype(w, o.parsed_type, pdname))
                   for i, o in enumerate(w.objs))
-    return " | E " + etok + " | R " + (",".join(rt) or "-") + " | M " + m + " | O " + ot
+    return " | E " + etok + " | R " + (",".join(rt) or "-") + " | P " + ptok + " | M " + m + " | O " + ot
 
 
 def apply_spec(w: World, spec: Dict[str, Any]) -> None:
